@@ -22,30 +22,30 @@ import (
 // NoiseGrpcConn (real XX handshake) -> Read / Write, with relay faults.
 
 type stackCfg struct {
-	id        int
-	writes    [2][]int // write sizes: [0] client->server, [1] server->client
-	faultN    int      // faults are injected into the first faultN messages of every stream
-	pDrop     int      // per mille
-	pSendErr  int
-	pRecvErr  int
-	idleAt    [2]int        // the writer of side x pauses before this write (-1: never) ...
-	idle      time.Duration // ... for this long: keepalive pings (5 s / 7 s) go out on the idle connection
-	plain     bool // plain connKit (no Noise): ClientConn / ServerConn used directly
-	realTime  bool // outside the bubble (stream errors make the code sleep while holding a mutex,
+	id       int
+	writes   [2][]int // write sizes: [0] client->server, [1] server->client
+	faultN   int      // faults are injected into the first faultN messages of every stream
+	pDrop    int      // per mille
+	pSendErr int
+	pRecvErr int
+	idleAt   [2]int        // the writer of side x pauses before this write (-1: never) ...
+	idle     time.Duration // ... for this long: keepalive pings (5 s / 7 s) go out on the idle connection
+	plain    bool          // plain connKit (no Noise): ClientConn / ServerConn used directly
+	realTime bool          // outside the bubble (stream errors make the code sleep while holding a mutex,
 	// which the fake clock of synctest cannot get past)
 }
 
 type stackRes struct {
-	hsErr      [2]error
-	written    [2][]byte // bytes accepted by Write on side x
-	read       [2][]byte // bytes read on side x
-	ioErr      [2]string
-	done       bool
-	virtual    time.Duration
-	sidOK      bool
-	sidDetail  string
-	readNs     []int
-	readBufs   []int
+	hsErr     [2]error
+	written   [2][]byte // bytes accepted by Write on side x
+	read      [2][]byte // bytes read on side x
+	ioErr     [2]string
+	done      bool
+	virtual   time.Duration
+	sidOK     bool
+	sidDetail string
+	readNs    []int
+	readBufs  []int
 }
 
 func runStack(t *testing.T, r *rng, cfg stackCfg, marker []byte) (res stackRes, relay *fakeRelay, leaked []string, pan string) {
